@@ -200,6 +200,16 @@ func dependsOnCallNamed(v ssa.Value, name string) bool {
 		seen[x] = true
 		switch y := x.(type) {
 		case *ssa.Extract:
+			// a result of a library helper: what the helper returns in that position
+			if hc, ok := y.Tuple.(*ssa.Call); ok {
+				if h := hc.Call.StaticCallee(); h != nil && !hc.Call.IsInvoke() && len(h.Blocks) > 0 && h.Name() != name {
+					for _, r := range ssax.Returns(h) {
+						if y.Index < len(r.Results) && walk(r.Results[y.Index]) {
+							return true
+						}
+					}
+				}
+			}
 			return walk(y.Tuple)
 		case *ssa.Call:
 			if sc := y.Call.StaticCallee(); sc != nil && sc.Name() == name {
